@@ -15,6 +15,7 @@ import (
 	"strconv"
 	"strings"
 	"sync"
+	"time"
 
 	"github.com/containerd/containerd/v2/core/mount"
 	"github.com/containerd/containerd/v2/core/snapshots"
@@ -384,6 +385,9 @@ type RecFS struct {
 	// OnLiveUnmount is called (with the lock released) when Unmount hits a registered mountpoint.
 	OnLiveUnmount func(id int)
 	failedUnmount map[string]bool // mountpoints whose live Unmount was scripted to fail
+	// expect/arrived: the Check calls of one API call are made concurrently by the snapshotter; each Check waits
+	// (bounded) until [expect] of them have arrived, so that all of them are in flight at the same time
+	expect, arrived int
 	// Created: labels of the last successful Mount per id (what the backend saw when the remote snapshot was created)
 	Created map[int]Labels
 	// OnLiveUnmountCall: same, with the id of the API call (concurrent harness).
@@ -477,8 +481,24 @@ func (f *RecFS) Mount(ctx context.Context, mountpoint string, labels map[string]
 	return nil
 }
 
+// SetExpect tells the backend how many concurrent Check calls the next API call should make.
+func (f *RecFS) SetExpect(n int) {
+	f.mu.Lock()
+	f.expect, f.arrived = n, 0
+	f.mu.Unlock()
+}
+
 func (f *RecFS) Check(ctx context.Context, mountpoint string, labels map[string]string) error {
 	f.mu.Lock()
+	f.arrived++
+	if f.expect > 1 {
+		deadline := time.Now().Add(40 * time.Millisecond)
+		for f.arrived < f.expect && time.Now().Before(deadline) {
+			f.mu.Unlock()
+			time.Sleep(100 * time.Microsecond)
+			f.mu.Lock()
+		}
+	}
 	defer f.mu.Unlock()
 	d := f.dirent(mountpoint)
 	_, live := f.Table[mountpoint]
@@ -814,6 +834,27 @@ func (m *Machine) Do(o Op) Out {
 		if id, ok := m.idOf[n]; ok {
 			m.preIDs[id] = true
 		}
+	}
+	// number of remote layers on the chain this call has to check (all of them are checked concurrently)
+	{
+		start, n := -1, 0
+		switch o.Op {
+		case "prepare", "view":
+			start = o.Parent
+		case "mounts":
+			start = o.Key
+		}
+		for k, fuel := start, 200; k >= 0 && fuel > 0; fuel-- {
+			e, ok := before[k]
+			if !ok {
+				break
+			}
+			if e.L.R {
+				n++
+			}
+			k = e.Parent
+		}
+		m.FS.SetExpect(n)
 	}
 	removedNow := -1 // id whose metadata this op removes (set below for remove)
 	if o.Op == "remove" {
@@ -1294,6 +1335,18 @@ func (m *Machine) Destroy() {
 		m.SN.Close()
 	}
 	os.RemoveAll(m.Root)
+}
+
+// LastUnmountID: id of the directory of the most recent Unmount call (-1: none / a temp directory).
+func (f *RecFS) LastUnmountID() int {
+	f.mu.Lock()
+	defer f.mu.Unlock()
+	for i := len(f.Events) - 1; i >= 0; i-- {
+		if f.Events[i].Ev == "unmount" {
+			return f.Events[i].D.Id
+		}
+	}
+	return -1
 }
 
 // Lock/Unlock give the concurrent harness consistent access to Events / Table / Problems.
